@@ -10,4 +10,3 @@ CONSTANTS
  DevOtherTemplate = FALSE
  DevCentreOther = FALSE
 CHECK_DEADLOCK FALSE
-INVARIANT SameHanded
